@@ -235,6 +235,14 @@ func (g *genCfg) readCmd(r *rand.Rand) Cmd {
 	case 9:
 		return Cmd{Args: []string{"SCAN", key, "LIMIT", "10000"}}
 	case 10:
+		if r.Intn(3) == 0 {
+			// one page of a paged scan, the cursor anywhere up to a little past the end
+			a := []string{"SCAN", key, "CURSOR", strconv.Itoa(r.Intn(8)), "LIMIT", strconv.Itoa(1 + r.Intn(4))}
+			if r.Intn(3) == 0 {
+				a = append(a, "DESC")
+			}
+			return Cmd{Args: append(a, []string{"IDS", "OBJECTS"}[r.Intn(2)])}
+		}
 		return Cmd{Args: []string{"SCAN", key, []string{"IDS", "COUNT"}[r.Intn(2)]}}
 	default:
 		if len(g.jsonIDs) > 0 && r.Intn(2) == 0 {
